@@ -350,7 +350,7 @@ def run_functions(ctx):
     from mitxgraders import RandomFunction, SpecificFunctions
     from mitxgraders.helpers.calc import MathArray
     rng = ctx.rng
-    nfun = ctx.pick(2, 10)
+    nfun = ctx.pick(3, 10)
     npts = ctx.pick(12, 60)
     combos = list(itertools.product((1, 2, 3, 4), (1, 2, 3), (1, 3, 5), (0, -2.5, 7), (10, 1, 0.5), (False, True)))
     for idx, (ind, outd, terms, center, amp, cplx) in enumerate(combos):
@@ -358,11 +358,26 @@ def run_functions(ctx):
             continue
         cfg = {'input_dim': ind, 'output_dim': outd, 'num_terms': terms, 'center': center, 'amplitude': amp, 'complex': cplx}
         s = RandomFunction(**cfg)
+        drawn = []
         for k in range(nfun):
             ctx.seed_case('rf', idx, k)
             f = draw(ctx, s, 'RandomFunction', {'config': cfg})
             if f is None:
                 break
+            probe = [rng.uniform(-6, 6) for _ in range(ind)]
+            try:
+                drawn.append((f, probe, f(*probe)))
+            except Exception:  # noqa
+                pass
+            # functions drawn earlier from this sampler must not change when more are drawn
+            for f0, p0, v0 in drawn[:-1]:
+                v1 = f0(*p0)
+                ctx.count('earlier_function_rechecks')
+                if not np.array_equal(np.asarray(v0), np.asarray(v1)):
+                    ctx.violation('C12:RandomFunction:changed_by_later_draw',
+                                  'a function drawn earlier returned %r, after another draw from the same sampler %r' % (v0, v1),
+                                  {'config': cfg, 'point': p0})
+                    break
             for d in range(npts):
                 big = d % 6 == 0
                 args = [rng.uniform(-1e4, 1e4) if big else rng.uniform(-6, 6) for _ in range(ind)]
